@@ -1,6 +1,1628 @@
-//! Property C11: correspondence and oracle (stub: nothing built yet).
-use crate::report::Report;
+//! Property C11: batch runs map files one-to-one, isolate failures and are deterministic.
+//!
+//! Real code: `darklua_core::process` + `WorkerTree::collect_errors` on `Resources::from_memory()`
+//! and on a real temporary directory (`Resources::from_file_system()`).
+//! CORRESPONDENCE: full before/after tree + error set against the Lean model (`c11.batch`), with
+//! `T` measured from single-file real runs.
+//! ORACLE (independent of the model): computed here from the property statement.
+use crate::model::{hex, unhex, Model};
+use crate::report::{hash_of, known_findings, Report, Violation};
+use crate::rng::Rng;
+use darklua_core::{Configuration, Options, Resources};
+use serde_json::{json, Value};
+use std::collections::{BTreeMap, BTreeSet};
+use std::panic::{catch_unwind, AssertUnwindSafe};
+use std::path::{Component, Path, PathBuf};
 
-pub fn run(report: &mut Report, _replay: Option<&str>) {
-    report.notes.push("C11: no harness yet".to_owned());
+// ---------------------------------------------------------------------------------------------
+// cases
+
+#[derive(Clone, Debug, PartialEq, Eq, Hash)]
+enum Ent {
+    File(Vec<u8>),
+    Dir,
+}
+
+#[derive(Clone, Debug, PartialEq, Eq, Hash)]
+struct Case {
+    fs: bool,
+    /// paths relative to the case root (memory: the keys themselves)
+    tree: Vec<(String, Ent)>,
+    input: String,
+    output: Option<String>,
+    fail_fast: bool,
+    config: usize,
+    /// file-system only: run with the process working directory set to this sub-directory and
+    /// relative input/output (only ever done in a child process)
+    chdir: Option<String>,
+}
+
+const CONFIGS: [&str; 4] = [
+    "{ generator: 'dense', rules: [] }",
+    "{ generator: 'readable', rules: ['remove_assertions', 'remove_comments', 'remove_spaces'] }",
+    "{ generator: 'dense', rules: [{ rule: 'convert_require', current: 'path', target: { name: 'luau' } }] }",
+    "{ generator: 'dense', bundle: { require_mode: 'path' }, rules: [] }",
+];
+
+fn config_reads_other_files(c: usize) -> bool {
+    c >= 2
+}
+
+/// only the bundler fails on a require that cannot be resolved (convert_require leaves it alone)
+fn config_fails_on_missing_require(c: usize) -> bool {
+    c == 3
+}
+
+fn configuration(c: usize) -> Configuration {
+    json5::from_str(CONFIGS[c]).expect("C11 harness configuration does not parse")
+}
+
+fn case_json(c: &Case) -> Value {
+    json!({
+        "fs": c.fs,
+        "tree": c.tree.iter().map(|(p, e)| match e {
+            Ent::File(b) => json!([p, hex(b)]),
+            Ent::Dir => json!([p]),
+        }).collect::<Vec<_>>(),
+        "input": c.input, "output": c.output, "fail_fast": c.fail_fast, "config": c.config,
+        "chdir": c.chdir,
+    })
+}
+
+fn case_from_json(v: &Value) -> Option<Case> {
+    let tree = v["tree"]
+        .as_array()?
+        .iter()
+        .map(|e| {
+            let a = e.as_array()?;
+            let p = a.first()?.as_str()?.to_owned();
+            Some(match a.get(1) {
+                Some(h) => (p, Ent::File(unhex(h.as_str()?)?)),
+                None => (p, Ent::Dir),
+            })
+        })
+        .collect::<Option<Vec<_>>>()?;
+    Some(Case {
+        fs: v["fs"].as_bool()?,
+        tree,
+        input: v["input"].as_str()?.to_owned(),
+        output: v["output"].as_str().map(str::to_owned),
+        fail_fast: v["fail_fast"].as_bool()?,
+        config: v["config"].as_u64()? as usize,
+        chdir: v["chdir"].as_str().map(str::to_owned),
+    })
+}
+
+// ---------------------------------------------------------------------------------------------
+// the harness's own lexical path arithmetic (independent of darklua and of the Lean model)
+
+fn lex_norm(p: &str) -> String {
+    let abs = p.starts_with('/');
+    let mut out: Vec<&str> = Vec::new();
+    for piece in p.split('/') {
+        match piece {
+            "" | "." => {}
+            ".." => {
+                if matches!(out.last(), Some(l) if *l != "..") {
+                    out.pop();
+                } else if !abs {
+                    out.push("..");
+                }
+            }
+            other => out.push(other),
+        }
+    }
+    let body = out.join("/");
+    if abs {
+        format!("/{}", body)
+    } else {
+        body
+    }
+}
+
+fn is_under(p: &str, dir: &str) -> Option<String> {
+    if dir.is_empty() {
+        return if p.starts_with('/') { None } else { Some(p.to_owned()) };
+    }
+    if p == dir {
+        return Some(String::new());
+    }
+    p.strip_prefix(dir)
+        .and_then(|r| r.strip_prefix('/'))
+        .map(str::to_owned)
+}
+
+fn has_lua_extension(path: &str) -> bool {
+    let name = path.rsplit('/').next().unwrap_or("");
+    for ext in [".lua", ".luau"] {
+        if let Some(stem) = name.strip_suffix(ext) {
+            if !stem.is_empty() {
+                return true;
+            }
+        }
+    }
+    false
+}
+
+fn join_rel(a: &str, rel: &str) -> String {
+    if rel.is_empty() {
+        a.to_owned()
+    } else if a.is_empty() {
+        rel.to_owned()
+    } else {
+        format!("{}/{}", a.trim_end_matches('/'), rel)
+    }
+}
+
+/// canonical display of a path printed by darklua: `components()` re-joined
+fn canon_display(p: &str) -> String {
+    let mut out = PathBuf::new();
+    for c in Path::new(p).components() {
+        match c {
+            Component::RootDir => out.push("/"),
+            other => out.push(other.as_os_str()),
+        }
+    }
+    out.to_string_lossy().into_owned()
+}
+
+// ---------------------------------------------------------------------------------------------
+// running the real code
+
+type Snapshot = BTreeMap<String, Option<Vec<u8>>>; // Some(bytes) = file, None = directory
+
+#[derive(Clone, Debug, Default, PartialEq, Eq)]
+struct RunResult {
+    /// `process` returned Err (nothing is processed then)
+    process_error: Option<String>,
+    /// Display of every collected error
+    errors: Vec<String>,
+    after: Snapshot,
+    panicked: bool,
+}
+
+static UNIQUE: std::sync::atomic::AtomicU64 = std::sync::atomic::AtomicU64::new(0);
+
+fn fresh_base() -> PathBuf {
+    let n = UNIQUE.fetch_add(1, std::sync::atomic::Ordering::SeqCst);
+    let dir = std::env::temp_dir().join(format!("dlv-c11-{}-{}", std::process::id(), n));
+    let _ = std::fs::remove_dir_all(&dir);
+    std::fs::create_dir_all(&dir).expect("cannot create the temporary case directory");
+    dir
+}
+
+struct TempTree {
+    base: PathBuf,
+}
+
+impl Drop for TempTree {
+    fn drop(&mut self) {
+        // directories made read-only by a case would block the removal
+        let _ = std::fs::remove_dir_all(&self.base);
+    }
+}
+
+fn abs(base: &str, p: &str) -> String {
+    if p.is_empty() {
+        format!("{}/", base)
+    } else {
+        format!("{}/{}", base, p)
+    }
+}
+
+fn materialize(base: &Path, tree: &[(String, Ent)], order: &[usize]) {
+    for &i in order {
+        let (p, e) = &tree[i];
+        let full = base.join(p);
+        match e {
+            Ent::Dir => std::fs::create_dir_all(&full).expect("mkdir"),
+            Ent::File(bytes) => {
+                if let Some(parent) = full.parent() {
+                    std::fs::create_dir_all(parent).expect("mkdir parent");
+                }
+                std::fs::write(&full, bytes).expect("write case file");
+            }
+        }
+    }
+}
+
+fn snapshot_fs(base: &Path) -> Snapshot {
+    let mut snap = Snapshot::new();
+    let mut stack = vec![base.to_path_buf()];
+    while let Some(dir) = stack.pop() {
+        let entries = match std::fs::read_dir(&dir) {
+            Ok(e) => e,
+            Err(_) => continue,
+        };
+        for entry in entries.flatten() {
+            let path = entry.path();
+            let rel = path.strip_prefix(base).unwrap().to_string_lossy().into_owned();
+            let meta = match std::fs::symlink_metadata(&path) {
+                Ok(m) => m,
+                Err(_) => continue,
+            };
+            if meta.is_dir() {
+                snap.insert(rel, None);
+                stack.push(path);
+            } else {
+                snap.insert(rel, Some(std::fs::read(&path).unwrap_or_default()));
+            }
+        }
+    }
+    snap
+}
+
+fn snapshot_memory(resources: &Resources) -> Snapshot {
+    let mut snap = Snapshot::new();
+    for path in resources.walk("") {
+        let content = resources.get(&path).unwrap_or_default();
+        snap.insert(path.to_string_lossy().into_owned(), Some(content.into_bytes()));
+    }
+    snap
+}
+
+fn initial_snapshot(case: &Case) -> Snapshot {
+    let mut snap = Snapshot::new();
+    for (p, e) in &case.tree {
+        match e {
+            Ent::File(b) => {
+                snap.insert(p.clone(), Some(b.clone()));
+            }
+            Ent::Dir => {
+                snap.insert(p.clone(), None);
+            }
+        }
+        if case.fs {
+            // every ancestor is a directory on a real tree
+            let mut cur = p.as_str();
+            while let Some(i) = cur.rfind('/') {
+                cur = &cur[..i];
+                snap.entry(cur.to_owned()).or_insert(None);
+            }
+        }
+    }
+    snap
+}
+
+fn make_options(input: &str, output: Option<&str>, fail_fast: bool, config: usize) -> Options {
+    let mut options = Options::new(input).with_configuration(configuration(config));
+    if let Some(out) = output {
+        options = options.with_output(out);
+    }
+    if fail_fast {
+        options = options.fail_fast();
+    }
+    options
+}
+
+fn run_process(resources: &Resources, options: Options) -> (Option<String>, Vec<String>, bool) {
+    let outcome = catch_unwind(AssertUnwindSafe(|| match darklua_core::process(resources, options) {
+        Ok(tree) => (None, tree.collect_errors().iter().map(|e| e.to_string()).collect::<Vec<_>>()),
+        Err(err) => (Some(err.to_string()), Vec::new()),
+    }));
+    match outcome {
+        Ok((pe, errors)) => (pe, errors, false),
+        Err(_) => (None, Vec::new(), true),
+    }
+}
+
+/// run the case on the real code; `order` = insertion / creation order of the tree entries.
+/// File-system errors mention the temporary root: it is replaced by `<B>`.
+fn run_real(case: &Case, order: &[usize]) -> RunResult {
+    if case.fs {
+        let tmp = TempTree { base: fresh_base() };
+        let base = tmp.base.to_string_lossy().into_owned();
+        materialize(&tmp.base, &case.tree, order);
+        let (input, output) = match &case.chdir {
+            Some(dir) => {
+                std::env::set_current_dir(tmp.base.join(dir)).expect("chdir");
+                (case.input.clone(), case.output.clone())
+            }
+            None => (abs(&base, &case.input), case.output.as_ref().map(|o| abs(&base, o))),
+        };
+        let resources = Resources::from_file_system();
+        let (process_error, errors, panicked) =
+            run_process(&resources, make_options(&input, output.as_deref(), case.fail_fast, case.config));
+        if case.chdir.is_some() {
+            let _ = std::env::set_current_dir("/");
+        }
+        let after = snapshot_fs(&tmp.base);
+        let strip = |s: String| s.replace(&base, "<B>");
+        RunResult {
+            process_error: process_error.map(strip),
+            errors: errors.into_iter().map(strip).collect(),
+            after,
+            panicked,
+        }
+    } else {
+        let resources = Resources::from_memory();
+        for &i in order {
+            if let (p, Ent::File(bytes)) = &case.tree[i] {
+                resources
+                    .write(p, std::str::from_utf8(bytes).expect("memory trees are UTF-8"))
+                    .unwrap();
+            }
+        }
+        let (process_error, errors, panicked) = run_process(
+            &resources,
+            make_options(&case.input, case.output.as_deref(), case.fail_fast, case.config),
+        );
+        RunResult { process_error, errors, after: snapshot_memory(&resources), panicked }
+    }
+}
+
+/// error classes: (kind, path as printed, canonicalised)
+fn classify_error(message: &str) -> (String, String) {
+    let kind = if message.starts_with("unable to parse") {
+        "parse"
+    } else if message.starts_with("unable to find") {
+        "notfound"
+    } else if message.starts_with("IO error with") {
+        "io"
+    } else if message.starts_with("error processing") {
+        "rule"
+    } else {
+        "other"
+    };
+    let path = message
+        .split('`')
+        .nth(1)
+        .map(canon_display)
+        .unwrap_or_default();
+    (kind.to_owned(), path)
+}
+
+/// `T` for one file: the real code run on that file alone (same initial tree, output to a fresh
+/// file with an extension so it is used verbatim). Ok(bytes) | Err(code): 1 parse, 2 rule,
+/// 3 io (unreadable source, e.g. invalid UTF-8), 4 not found, 9 other.
+struct TMeasure {
+    fs_tree: Option<TempTree>,
+    memory: Option<Resources>,
+    counter: usize,
+}
+
+impl TMeasure {
+    fn new(case: &Case) -> Self {
+        let order: Vec<usize> = (0..case.tree.len()).collect();
+        if case.fs {
+            let tmp = TempTree { base: fresh_base() };
+            materialize(&tmp.base, &case.tree, &order);
+            TMeasure { fs_tree: Some(tmp), memory: None, counter: 0 }
+        } else {
+            let resources = Resources::from_memory();
+            for (p, e) in &case.tree {
+                if let Ent::File(bytes) = e {
+                    resources.write(p, std::str::from_utf8(bytes).unwrap()).unwrap();
+                }
+            }
+            TMeasure { fs_tree: None, memory: Some(resources), counter: 0 }
+        }
+    }
+
+    /// `source` is the key of the file (relative to the case root)
+    fn measure(&mut self, source: &str, config: usize) -> Result<Vec<u8>, u32> {
+        self.counter += 1;
+        let out_rel = format!("zz-c11-t-out/o{}.lua", self.counter);
+        let (resources, input, output) = match (&self.fs_tree, &self.memory) {
+            (Some(tmp), _) => {
+                let base = tmp.base.to_string_lossy().into_owned();
+                (Resources::from_file_system(), abs(&base, source), abs(&base, &out_rel))
+            }
+            (_, Some(mem)) => (mem.clone(), source.to_owned(), out_rel.clone()),
+            _ => unreachable!(),
+        };
+        let (process_error, errors, panicked) =
+            run_process(&resources, make_options(&input, Some(&output), false, config));
+        if panicked || process_error.is_some() {
+            return Err(9);
+        }
+        if let Some(first) = errors.first() {
+            return Err(match classify_error(first).0.as_str() {
+                "parse" => 1,
+                "rule" => 2,
+                "io" => 3,
+                "notfound" => 4,
+                _ => 9,
+            });
+        }
+        let result = match &self.fs_tree {
+            Some(tmp) => std::fs::read(tmp.base.join(&out_rel)).map_err(|_| 9),
+            None => resources.get(&output).map(String::into_bytes).map_err(|_| 9),
+        };
+        // keep the measuring tree equal to the initial tree
+        match &self.fs_tree {
+            Some(tmp) => {
+                let _ = std::fs::remove_dir_all(tmp.base.join("zz-c11-t-out"));
+            }
+            None => {
+                let _ = resources.remove(&output);
+            }
+        }
+        result
+    }
+}
+
+// ---------------------------------------------------------------------------------------------
+// the model side
+
+#[derive(Debug, Default)]
+struct ModelAnswer {
+    collect_error: Option<String>,
+    work: Vec<(String, String)>,
+    store: BTreeMap<String, Option<Option<Vec<u8>>>>, // None = absent, Some(None) = dir
+    errors: BTreeSet<(String, String)>,
+    tmiss: u64,
+    raw: String,
+}
+
+fn path_hex(s: &str) -> String {
+    hex(s.as_bytes())
+}
+
+fn unhex_str(s: &str) -> Option<String> {
+    unhex(s).map(|b| String::from_utf8_lossy(&b).into_owned())
+}
+
+fn model_prefix(case: &Case, base: &str, cwd: &str) -> String {
+    let mut tree = String::from("(TREE");
+    if case.fs {
+        tree.push_str(&format!(" (d {})", path_hex(base)));
+        let snap = initial_snapshot(case);
+        for (p, e) in &snap {
+            match e {
+                Some(bytes) => tree.push_str(&format!(" (f {} {})", path_hex(&abs(base, p)), hex(bytes))),
+                None => tree.push_str(&format!(" (d {})", path_hex(&abs(base, p)))),
+            }
+        }
+    } else {
+        for (p, e) in &case.tree {
+            if let Ent::File(bytes) = e {
+                tree.push_str(&format!(" (f {} {})", path_hex(p), hex(bytes)));
+            }
+        }
+    }
+    tree.push(')');
+    let (input, output) = if case.fs && case.chdir.is_none() {
+        (abs(base, &case.input), case.output.as_ref().map(|o| abs(base, o)))
+    } else {
+        (case.input.clone(), case.output.clone())
+    };
+    format!(
+        "(B {} {}) {} {} {}",
+        case.fs,
+        path_hex(cwd),
+        tree,
+        path_hex(&input),
+        output.map(|o| path_hex(&o)).unwrap_or_else(|| "-".to_owned())
+    )
+}
+
+/// minimal S-expression reader for the driver's answers
+#[derive(Debug, Clone)]
+enum Sx {
+    Atom(String),
+    List(Vec<Sx>),
+}
+
+fn parse_sx(text: &str) -> Vec<Sx> {
+    let mut stack: Vec<Vec<Sx>> = vec![Vec::new()];
+    let mut token = String::new();
+    let flush = |token: &mut String, stack: &mut Vec<Vec<Sx>>| {
+        if !token.is_empty() {
+            stack.last_mut().unwrap().push(Sx::Atom(std::mem::take(token)));
+        }
+    };
+    for ch in text.chars() {
+        match ch {
+            '(' => {
+                flush(&mut token, &mut stack);
+                stack.push(Vec::new());
+            }
+            ')' => {
+                flush(&mut token, &mut stack);
+                let done = stack.pop().unwrap_or_default();
+                if let Some(top) = stack.last_mut() {
+                    top.push(Sx::List(done));
+                } else {
+                    stack.push(vec![Sx::List(done)]);
+                }
+            }
+            ' ' => flush(&mut token, &mut stack),
+            c => token.push(c),
+        }
+    }
+    flush(&mut token, &mut stack);
+    stack.pop().unwrap_or_default()
+}
+
+fn atoms(list: &[Sx]) -> Vec<String> {
+    list.iter()
+        .filter_map(|s| match s {
+            Sx::Atom(a) => Some(a.clone()),
+            _ => None,
+        })
+        .collect()
+}
+
+fn ask_batch_model(
+    model: &mut Model,
+    case: &Case,
+    base: &str,
+    cwd: &str,
+    table: &[(String, Vec<u8>, Result<Vec<u8>, u32>)],
+    perm: Option<&[usize]>,
+) -> ModelAnswer {
+    let mut t = String::from("(T");
+    for (p, content, result) in table {
+        let key = if case.fs { abs(base, p) } else { p.clone() };
+        match result {
+            Ok(bytes) => t.push_str(&format!(" ({} {} ok {})", path_hex(&key), hex(content), hex(bytes))),
+            Err(code) => t.push_str(&format!(" ({} {} err {})", path_hex(&key), hex(content), code)),
+        }
+    }
+    t.push(')');
+    let perm_text = match perm {
+        None => "(PERM id)".to_owned(),
+        Some(p) => format!("(PERM {})", p.iter().map(|i| i.to_string()).collect::<Vec<_>>().join(" ")),
+    };
+    let line = format!(
+        "c11.batch {} {} {} {}",
+        model_prefix(case, base, cwd),
+        case.fail_fast,
+        t,
+        perm_text
+    );
+    let raw = model.ask(&line);
+    let mut answer = ModelAnswer { raw: raw.clone(), ..Default::default() };
+    if let Some(rest) = raw.strip_prefix("collect-error ") {
+        answer.collect_error = Some(rest.split(' ').next().unwrap_or("").to_owned());
+        return answer;
+    }
+    if !raw.starts_with("ok ") {
+        answer.collect_error = Some(format!("driver:{}", raw));
+        return answer;
+    }
+    let strip = |s: String| -> String {
+        if case.fs {
+            match s.strip_prefix(base) {
+                Some(r) => r.trim_start_matches('/').to_owned(),
+                None => format!("<outside>{}", s),
+            }
+        } else {
+            s
+        }
+    };
+    for section in parse_sx(&raw[3..]) {
+        if let Sx::List(items) = section {
+            let name = match items.first() {
+                Some(Sx::Atom(a)) => a.clone(),
+                _ => continue,
+            };
+            for item in &items[1..] {
+                match (name.as_str(), item) {
+                    ("work", Sx::List(l)) => {
+                        let a = atoms(l);
+                        if a.len() == 2 {
+                            answer.work.push((
+                                unhex_str(&a[0]).unwrap_or_default(),
+                                unhex_str(&a[1]).unwrap_or_default(),
+                            ));
+                        }
+                    }
+                    ("store", Sx::List(l)) => {
+                        let a = atoms(l);
+                        if a.len() >= 2 {
+                            let p = unhex_str(&a[0]).unwrap_or_default();
+                            if case.fs && (p == base || !p.starts_with(base)) {
+                                continue; // the case root and everything above it
+                            }
+                            let v = match a[1].as_str() {
+                                "f" => Some(Some(unhex(&a[2]).unwrap_or_default())),
+                                "d" => Some(None),
+                                _ => None,
+                            };
+                            answer.store.insert(strip(p), v);
+                        }
+                    }
+                    ("errors", Sx::List(l)) => {
+                        let a = atoms(l);
+                        if a.len() == 4 {
+                            let path = unhex_str(&a[2]).unwrap_or_default();
+                            let path = if case.fs { path.replace(base, "<B>") } else { path };
+                            let kind = match (a[1].as_str(), a[3].as_str()) {
+                                ("read", _) => "notfound",
+                                ("write", _) => "io",
+                                ("transform", "1") => "parse",
+                                ("transform", "2") => "rule",
+                                ("transform", "3") => "io",
+                                ("transform", "4") => "notfound",
+                                _ => "other",
+                            };
+                            answer.errors.insert((kind.to_owned(), path));
+                        }
+                    }
+                    ("tmiss", Sx::Atom(n)) => answer.tmiss = n.parse().unwrap_or(0),
+                    _ => {}
+                }
+            }
+        }
+    }
+    answer
+}
+
+#[derive(Debug, Clone, Copy, Default)]
+struct Region {
+    h: bool,
+    dot: bool,
+    overlap: bool,
+    indep: bool,
+}
+
+fn ask_region(model: &mut Model, case: &Case, base: &str, cwd: &str) -> Region {
+    let answer = model.ask(&format!("c11.h {}", model_prefix(case, base, cwd)));
+    let get = |k: &str| answer.split(' ').any(|kv| kv == format!("{}=true", k));
+    Region { h: get("h"), dot: get("dot"), overlap: get("overlap"), indep: get("indep") }
+}
+
+// ---------------------------------------------------------------------------------------------
+// generators
+
+#[derive(Clone, Copy, Debug, PartialEq, Eq)]
+enum Fault {
+    Healthy,
+    Syntax,
+    BadUtf8,
+    MissingRequire,
+}
+
+fn healthy_content(rng: &mut Rng, siblings: &[String]) -> String {
+    match rng.below(7) {
+        0 => "return 1".to_owned(),
+        1 => format!("local x = {}\nreturn x + 1\n", rng.below(100)),
+        2 => "-- comment\nlocal function f(a, b)\n  assert(a, b)\n  return a\nend\nreturn f\n".to_owned(),
+        3 => "local select, type = 1, 2\nlocal v = assert(f(), 'msg', select, type)\nreturn v\n".to_owned(),
+        4 => "return { 'é', \"日本\", 3 }\n".to_owned(),
+        5 if !siblings.is_empty() => {
+            let s = rng.pick(siblings);
+            // the full file name: a `.lua`/`.luau` extension is taken verbatim by the path require mode
+            let name = s.rsplit('/').next().unwrap();
+            format!("local m = require('./{}')\nreturn m\n", name)
+        }
+        _ => format!("print('{}')\n", rng.below(1000)),
+    }
+}
+
+fn fault_content(fault: Fault, rng: &mut Rng) -> Vec<u8> {
+    match fault {
+        Fault::Syntax => (*rng.pick(&["local = 1", "return )", "x = = 2\n", "function("])).as_bytes().to_vec(),
+        Fault::BadUtf8 => vec![b'r', b'e', b't', b'u', b'r', b'n', b' ', b'"', 0xff, 0xfe, b'"'],
+        Fault::MissingRequire => b"local m = require('./zz-does-not-exist')\nreturn m\n".to_vec(),
+        Fault::Healthy => unreachable!(),
+    }
+}
+
+const LUA_NAMES: [&str; 12] = [
+    "a.lua", "b.luau", "with space.lua", "dots.v1.2.lua", "\u{fc}n\u{ef}.lua", "\u{65e5}\u{672c}.luau",
+    ".hidden.lua", "init.lua", "x..lua", "UP.lua", "m-1.luau", "z.lua.luau",
+];
+const OTHER_NAMES: [&str; 8] = [
+    "readme.txt", "data.json", ".lua", "noext", "x.lua.txt", "UPPER.LUA", "lua", "a.lua~",
+];
+const DIR_NAMES: [&str; 6] = ["sub", "deep dir", "x.lua", "v1.2", "\u{e9}t\u{e9}", "n"];
+
+struct Generated {
+    case: Case,
+    /// ground truth by construction: source key -> fault kind, for files under the input
+    faults: BTreeMap<String, Fault>,
+    /// destinations blocked on purpose (file-system only): source key
+    blocked: BTreeSet<String>,
+    shape: String,
+}
+
+fn generate(rng: &mut Rng, fs: bool, allow_finding_classes: bool) -> Generated {
+    let root = if rng.chance(1, 4) { "proj/src" } else { "src" };
+    let mut tree: Vec<(String, Ent)> = Vec::new();
+    let mut faults = BTreeMap::new();
+    let config = if rng.chance(1, 2) { rng.below(2) } else { rng.below(4) };
+    // directories
+    let mut dirs = vec![root.to_owned()];
+    for _ in 0..rng.below(4) {
+        let parent = rng.pick(&dirs).clone();
+        let d = format!("{}/{}", parent, rng.pick(&DIR_NAMES));
+        if !dirs.contains(&d) {
+            dirs.push(d);
+        }
+    }
+    // lua files
+    let n_lua = 1 + rng.below(6);
+    let mut lua_keys: Vec<String> = Vec::new();
+    for _ in 0..n_lua {
+        let key = format!("{}/{}", rng.pick(&dirs), rng.pick(&LUA_NAMES));
+        if !lua_keys.contains(&key) && !dirs.contains(&key) {
+            lua_keys.push(key);
+        }
+    }
+    let fault_rate = *rng.pick(&[0u32, 0, 1, 2, 3]);
+    for key in &lua_keys {
+        let fault = if rng.chance(fault_rate, 6) {
+            match rng.below(if fs { 3 } else { 2 }) {
+                0 => Fault::Syntax,
+                1 => Fault::MissingRequire,
+                _ => Fault::BadUtf8,
+            }
+        } else {
+            Fault::Healthy
+        };
+        let content = match fault {
+            Fault::Healthy => {
+                let dir = key.rsplit_once('/').map(|x| x.0).unwrap_or("");
+                // only siblings already known to be healthy and free of requires themselves
+                let siblings: Vec<String> = lua_keys
+                    .iter()
+                    .filter(|k| *k != key && k.rsplit_once('/').map(|x| x.0).unwrap_or("") == dir)
+                    .filter(|k| faults.get(*k) == Some(&Fault::Healthy))
+                    .filter(|k| tree.iter().any(|(p, e)| p == *k && matches!(e, Ent::File(b) if !String::from_utf8_lossy(b).contains("require") && String::from_utf8_lossy(b).contains("return"))))
+                    .cloned()
+                    .collect();
+                healthy_content(rng, &siblings).into_bytes()
+            }
+            f => fault_content(f, rng),
+        };
+        tree.push((key.clone(), Ent::File(content)));
+        faults.insert(key.clone(), fault);
+    }
+    // non-lua files and empty directories
+    for _ in 0..rng.below(3) {
+        let key = format!("{}/{}", rng.pick(&dirs), rng.pick(&OTHER_NAMES));
+        if !tree.iter().any(|(p, _)| *p == key) && !dirs.contains(&key) {
+            // only ever a work item when given as the single input file: then it does not parse
+            faults.insert(key.clone(), Fault::Syntax);
+            tree.push((key, Ent::File(b"not lua {".to_vec())));
+        }
+    }
+    if fs {
+        for d in &dirs {
+            if !tree.iter().any(|(p, _)| p.starts_with(&format!("{}/", d))) {
+                tree.push((d.clone(), Ent::Dir));
+            }
+        }
+    }
+    // a file next to the input root that must never be touched
+    tree.push(("outside.lua".to_owned(), Ent::File(b"return 'outside'".to_vec())));
+
+    // input form
+    let mut shape = String::new();
+    let single_file = rng.chance(1, 6);
+    let input = if single_file {
+        shape.push_str("in=file");
+        let any_file: Vec<&String> = tree.iter().filter(|(p, e)| matches!(e, Ent::File(_)) && p.starts_with(root)).map(|(p, _)| p).collect();
+        (*rng.pick(&any_file)).clone()
+    } else {
+        match rng.below(8) {
+            0 => { shape.push_str("in=./dir"); format!("./{}", root) }
+            1 => { shape.push_str("in=dir/"); format!("{}/", root) }
+            2 if dirs.len() > 1 => { shape.push_str("in=dir/sub/.."); format!("{}/..", dirs[1]) }
+            3 if dirs.len() > 1 => { shape.push_str("in=subdir"); dirs[1].clone() }
+            4 => { shape.push_str("in=missing"); "nowhere".to_owned() }
+            _ => { shape.push_str("in=dir"); root.to_owned() }
+        }
+    };
+    // output form
+    let mut blocked = BTreeSet::new();
+    let input_norm = lex_norm(&input);
+    let output: Option<String> = match rng.below(if allow_finding_classes { 12 } else { 9 }) {
+        0 | 1 => { shape.push_str(" out=absent"); None }
+        2 => { shape.push_str(" out=new"); Some("out".to_owned()) }
+        3 => { shape.push_str(" out=./new/deep"); Some("./out/deep".to_owned()) }
+        4 => {
+            shape.push_str(" out=existing-dir");
+            tree.push(("dist/keep.txt".to_owned(), Ent::File(b"keep".to_vec())));
+            tree.push(("dist/sub/old.lua".to_owned(), Ent::File(b"return 'old'".to_vec())));
+            Some("dist".to_owned())
+        }
+        5 => {
+            shape.push_str(" out=existing-file");
+            tree.push(("dist.lua".to_owned(), Ent::File(b"return 'previous'".to_vec())));
+            Some("dist.lua".to_owned())
+        }
+        6 => { shape.push_str(" out=new.ext"); Some("out/result.lua".to_owned()) }
+        7 => { shape.push_str(" out=same-as-input"); Some(input.clone()) }
+        8 if fs && !single_file => {
+            // unwritable destinations: a directory in the way / a file where a directory is needed
+            shape.push_str(" out=blocked");
+            for key in lua_keys.iter() {
+                if let Some(rel) = is_under(key, &input_norm) {
+                    if rel.is_empty() { continue; }
+                    if rng.chance(1, 3) {
+                        if rng.chance(1, 2) || !rel.contains('/') {
+                            tree.push((format!("dist/{}/in-the-way.txt", rel), Ent::File(b"x".to_vec())));
+                            blocked.insert(key.clone());
+                        } else {
+                            let top = rel.split('/').next().unwrap();
+                            if !tree.iter().any(|(p, _)| *p == format!("dist/{}", top)) {
+                                tree.push((format!("dist/{}", top), Ent::File(b"file in the way".to_vec())));
+                            }
+                        }
+                    }
+                }
+            }
+            // everything below a blocking file is blocked
+            for key in lua_keys.iter() {
+                if let Some(rel) = is_under(key, &input_norm) {
+                    let top = rel.split('/').next().unwrap_or("");
+                    if rel.contains('/') && tree.iter().any(|(p, e)| *p == format!("dist/{}", top) && matches!(e, Ent::File(_))) {
+                        blocked.insert(key.clone());
+                    }
+                }
+            }
+            tree.push(("dist/keep.txt".to_owned(), Ent::File(b"keep".to_vec())));
+            Some("dist".to_owned())
+        }
+        8 => { shape.push_str(" out=new"); Some("out2".to_owned()) }
+        9 => { shape.push_str(" out=inside-input"); Some(format!("{}/sub", input_norm)) }
+        10 => { shape.push_str(" out=parent-of-input"); Some(input_norm.rsplit_once('/').map(|x| x.0.to_owned()).unwrap_or_default()) }
+        _ => { shape.push_str(" in=dot"); Some("out".to_owned()) }
+    };
+    let input = if shape.ends_with("in=dot") { ".".to_owned() } else { input };
+    let fail_fast = rng.chance(1, 4);
+    // drop the tree entries that a file-system tree cannot hold (a file below a file)
+    let mut clean: Vec<(String, Ent)> = Vec::new();
+    for (p, e) in tree {
+        let conflict = clean.iter().any(|(q, qe)| {
+            *q == p
+                || (fs && matches!(qe, Ent::File(_)) && p.starts_with(&format!("{}/", q)))
+                || (fs && matches!(e, Ent::File(_)) && q.starts_with(&format!("{}/", p)))
+        });
+        if !conflict {
+            clean.push((p, e));
+        }
+    }
+    faults.retain(|k, _| clean.iter().any(|(p, _)| p == k));
+    blocked.retain(|k| clean.iter().any(|(p, _)| p == k));
+    let case = Case { fs, tree: clean, input, output, fail_fast, config, chdir: None };
+    Generated { case, faults, blocked, shape }
+}
+
+// ---------------------------------------------------------------------------------------------
+// one case: correspondence + oracle
+
+#[derive(Default)]
+struct Outcome {
+    violations: Vec<Violation>,
+    hists: Vec<(String, String)>,
+    nontrivial_key: Option<u64>,
+    sample: Option<Value>,
+    finding_hits: Vec<(String, String)>, // (class, what)
+    counters: Vec<(String, u64)>,
+}
+
+fn sorted_errors(errors: &[String]) -> BTreeSet<(String, String)> {
+    errors.iter().map(|e| classify_error(e)).collect()
+}
+
+fn snapshot_digest(snap: &Snapshot, errors: &[String]) -> u64 {
+    let mut e: Vec<&String> = errors.iter().collect();
+    e.sort();
+    hash_of(&(snap, e))
+}
+
+/// the oracle's expectation, from the property statement alone
+struct Expectation {
+    /// (source key, destination key); None = the statement does not fix it (single-file input)
+    items: Vec<(String, String)>,
+    in_place: bool,
+    single_file: bool,
+}
+
+fn expectation(case: &Case) -> Expectation {
+    let initial = initial_snapshot(case);
+    let input = lex_norm(&case.input);
+    let is_file = matches!(initial.get(&input), Some(Some(_)));
+    let out = case.output.as_ref().map(|o| lex_norm(o));
+    if is_file {
+        let name = input.rsplit('/').next().unwrap().to_owned();
+        let dest = match &out {
+            None => input.clone(),
+            Some(o) => {
+                let o_is_dir = matches!(initial.get(o), Some(None))
+                    || initial.keys().any(|k| k.starts_with(&format!("{}/", o)));
+                let o_is_file = matches!(initial.get(o), Some(Some(_)));
+                let has_ext = o.rsplit('/').next().map(|n| n.rfind('.').map(|i| i > 0).unwrap_or(false)).unwrap_or(false);
+                if o_is_dir { join_rel(o, &name) } else if o_is_file || has_ext { o.clone() } else { join_rel(o, &name) }
+            }
+        };
+        let in_place = dest == input;
+        if out.is_none() && !has_lua_extension(&input) {
+            // without an output the input is walked and filtered by extension like a directory
+            return Expectation { items: Vec::new(), in_place, single_file: true };
+        }
+        return Expectation { items: vec![(input, dest)], in_place, single_file: true };
+    }
+    let mut items = Vec::new();
+    for (p, e) in &initial {
+        if e.is_some() && has_lua_extension(p) {
+            if let Some(rel) = is_under(p, &input) {
+                if rel.is_empty() { continue; }
+                let dest = match &out {
+                    None => p.clone(),
+                    Some(o) => join_rel(o, &rel),
+                };
+                items.push((p.clone(), dest));
+            }
+        }
+    }
+    let in_place = out.is_none() || out.as_deref() == Some(input.as_str());
+    Expectation { items, in_place, single_file: false }
+}
+
+fn violation(kind: &str, check: &str, what: String, case: &Case, found: bool) -> Violation {
+    Violation { kind: kind.to_owned(), check: check.to_owned(), what, input: case_json(case), failing_input_found: found }
+}
+
+/// sources whose destination cannot be written on a real file system: the destination is an
+/// existing directory, or a strict ancestor of it is a regular file
+fn blocked_sources(case: &Case, exp: &Expectation, initial: &Snapshot) -> BTreeSet<String> {
+    let mut blocked = BTreeSet::new();
+    if !case.fs {
+        return blocked;
+    }
+    for (src, dest) in &exp.items {
+        let mut is_blocked = matches!(initial.get(dest), Some(None));
+        let mut cur = dest.as_str();
+        while let Some(i) = cur.rfind('/') {
+            cur = &cur[..i];
+            if matches!(initial.get(cur), Some(Some(_))) {
+                is_blocked = true;
+            }
+        }
+        if is_blocked {
+            blocked.insert(src.clone());
+        }
+    }
+    blocked
+}
+
+/// judge the property on the real behaviour; returns the list of broken clauses
+fn oracle(case: &Case, gen_faults: &BTreeMap<String, Fault>, real: &RunResult, second: &RunResult) -> Vec<(String, String)> {
+    let mut broken: Vec<(String, String)> = Vec::new();
+    let initial = initial_snapshot(case);
+    let exp = expectation(case);
+    let blocked = &blocked_sources(case, &exp, &initial);
+    if real.panicked {
+        broken.push(("panic".into(), "process panicked".into()));
+        return broken;
+    }
+    if let Some(err) = &real.process_error {
+        if !exp.items.is_empty() {
+            broken.push(("whole-run-error".into(), format!("process returned Err({}) although {} file(s) lie under the input", err, exp.items.len())));
+        }
+        if real.after != initial {
+            broken.push(("whole-run-error-wrote".into(), "process returned Err but the tree changed".into()));
+        }
+        return broken;
+    }
+    let is_bad = |src: &str| -> bool {
+        let f = gen_faults.get(src).copied().unwrap_or(Fault::Healthy);
+        blocked.contains(src)
+            || matches!(f, Fault::Syntax | Fault::BadUtf8)
+            || (f == Fault::MissingRequire && config_fails_on_missing_require(case.config))
+    };
+    let bad: Vec<&(String, String)> = exp.items.iter().filter(|(s, _)| is_bad(s)).collect();
+    let healthy: Vec<&(String, String)> = exp.items.iter().filter(|(s, _)| !is_bad(s)).collect();
+    let dests: BTreeSet<&String> = exp.items.iter().map(|(_, d)| d).collect();
+    let errors = sorted_errors(&real.errors);
+
+    // every bad file is reported with its path, and nothing is written for it
+    for (src, dest) in &bad {
+        let want_src = if case.fs { format!("<B>/{}", src) } else { (*src).clone() };
+        let want_dest = if case.fs { format!("<B>/{}", dest) } else { (*dest).clone() };
+        let reported = errors.iter().any(|(_, p)| {
+            *p == want_src || *p == want_dest || (blocked.contains(src.as_str()) && want_dest.starts_with(&format!("{}/", p)))
+        });
+        if !case.fail_fast && !reported {
+            broken.push(("bad-not-reported".into(), format!("faulty file {} is not reported with its path; errors: {:?}", src, real.errors)));
+        }
+        if real.after.get(dest.as_str()) != initial.get(dest.as_str()) && !healthy.iter().any(|(_, d)| d == dest) {
+            broken.push(("bad-wrote".into(), format!("something was written at {} for the faulty file {}", dest, src)));
+        }
+    }
+    if !case.fail_fast && real.errors.len() != bad.len() {
+        broken.push(("error-count".into(), format!("{} error(s) for {} faulty file(s): {:?}", real.errors.len(), bad.len(), real.errors)));
+    }
+    if case.fail_fast && errors.len() > 1 {
+        broken.push(("fail-fast-many".into(), format!("fail-fast reported {} errors", errors.len())));
+    }
+    if case.fail_fast && !bad.is_empty() && errors.is_empty() {
+        broken.push(("fail-fast-none".into(), "fail-fast run with faulty files reported nothing".into()));
+    }
+    // exactly one output per healthy file at the mirrored path (all of them unless fail-fast stopped)
+    if !case.fail_fast || bad.is_empty() {
+        for (src, dest) in &healthy {
+            match real.after.get(dest.as_str()) {
+                Some(Some(_)) => {}
+                other => broken.push(("missing-output".into(), format!("no output file at {} for {} (found {:?})", dest, src, other.map(|o| o.is_some())))),
+            }
+        }
+    }
+    // nothing else new or changed (directories above destinations may appear)
+    for (p, v) in &real.after {
+        if initial.get(p) == Some(v) {
+            continue;
+        }
+        if dests.contains(p) {
+            continue;
+        }
+        if v.is_none() && dests.iter().any(|d| d.starts_with(&format!("{}/", p))) && !initial.contains_key(p) {
+            continue;
+        }
+        broken.push(("stray-write".into(), format!("{} is new or changed but is not a mirrored destination", p)));
+    }
+    for p in initial.keys() {
+        if !real.after.contains_key(p) {
+            broken.push(("deleted".into(), format!("{} disappeared", p)));
+        }
+    }
+    // inputs are byte-identical when an output location is given (and is not the input itself)
+    if !exp.in_place {
+        for (src, _) in &exp.items {
+            if real.after.get(src) != initial.get(src) {
+                broken.push(("input-modified".into(), format!("input {} was modified although an output location is given", src)));
+            }
+        }
+    }
+    // repeated run / other insertion order: byte-identical (fail-fast runs with a fault are
+    // order-dependent by design: see `fail_fast_spec`)
+    if (!case.fail_fast || bad.is_empty()) && (real.after != second.after || sorted_errors(&real.errors) != sorted_errors(&second.errors)) {
+        let diff: Vec<&String> = real.after.iter().filter(|(p, v)| second.after.get(*p) != Some(v)).map(|(p, _)| p).collect();
+        broken.push(("nondeterministic".into(), format!("two runs (different creation/insertion order) differ at {:?}", diff)));
+    }
+    broken
+}
+
+/// healthy files must come out exactly as in a run where the bad files are absent
+fn oracle_isolation(case: &Case, gen_faults: &BTreeMap<String, Fault>, real: &RunResult) -> Vec<(String, String)> {
+    let mut broken = Vec::new();
+    // with a configuration whose rules read other files (bundling, require conversion) a healthy
+    // file may legitimately depend on a file that is "bad" only as a work item (e.g. its
+    // destination is blocked): the deletion form of the statement is for per-file configurations
+    if case.fail_fast || real.process_error.is_some() || real.panicked || config_reads_other_files(case.config) {
+        return broken;
+    }
+    let exp = expectation(case);
+    let blocked = &blocked_sources(case, &exp, &initial_snapshot(case));
+    let is_bad = |src: &str| -> bool {
+        let f = gen_faults.get(src).copied().unwrap_or(Fault::Healthy);
+        blocked.contains(src)
+            || matches!(f, Fault::Syntax | Fault::BadUtf8)
+            || (f == Fault::MissingRequire && config_fails_on_missing_require(case.config))
+    };
+    let bad: BTreeSet<&String> = exp.items.iter().map(|(s, _)| s).filter(|s| is_bad(s)).collect();
+    if bad.is_empty() {
+        return broken;
+    }
+    let mut reduced = case.clone();
+    reduced.tree.retain(|(p, _)| !bad.contains(p));
+    if expectation(&reduced).single_file != exp.single_file {
+        return broken;
+    }
+    let order: Vec<usize> = (0..reduced.tree.len()).collect();
+    let clean = run_real(&reduced, &order);
+    for (src, dest) in exp.items.iter().filter(|(s, _)| !bad.contains(s)) {
+        if clean.after.get(dest) != real.after.get(dest) {
+            broken.push(("not-isolated".into(), format!("output {} of healthy {} differs from the run without the faulty files", dest, src)));
+        }
+    }
+    broken
+}
+
+fn run_case(model: &mut Model, g: &Generated, rng: &mut Rng, listed: &BTreeSet<String>) -> Outcome {
+    let case = &g.case;
+    let mut out = Outcome::default();
+    let n = case.tree.len();
+    let order1: Vec<usize> = (0..n).collect();
+    let mut order2 = order1.clone();
+    rng.shuffle(&mut order2);
+
+    let real = run_real(case, &order1);
+    let second = run_real(case, &order2);
+
+    // ---- region and T
+    let base = "/dlv-c11-root"; // the model sees file-system trees under a fixed absolute root
+    let region = ask_region(model, case, base, "/");
+    let mut tm = TMeasure::new(case);
+    let mut table = Vec::new();
+    for (p, e) in &case.tree {
+        if let Ent::File(content) = e {
+            table.push((p.clone(), content.clone(), tm.measure(p, case.config)));
+        }
+    }
+    drop(tm);
+
+    // ---- correspondence
+    let first = ask_batch_model(model, case, base, "/", &table, None);
+    let mut perm: Option<Vec<usize>> = None;
+    if first.collect_error.is_none() {
+        let wl = &first.work;
+        let k = wl.len();
+        if case.fail_fast && k > 0 {
+            // the visiting order is not observable: written items first, then the failing one
+            let initial = initial_snapshot(case);
+            let real_err_paths: Vec<String> = real.errors.iter().map(|e| classify_error(e).1).collect();
+            let strip = |s: &str| -> String {
+                if case.fs { lex_norm(s.strip_prefix(base).unwrap_or(s).trim_start_matches('/')) } else { lex_norm(s) }
+            };
+            let mut written = Vec::new();
+            let mut failing = Vec::new();
+            let mut rest = Vec::new();
+            for (i, (src, dest)) in wl.iter().enumerate() {
+                let (s, d) = (strip(src), strip(dest));
+                let s_shown = if case.fs { format!("<B>/{}", s) } else { s.clone() };
+                let d_shown = if case.fs { format!("<B>/{}", d) } else { d.clone() };
+                let d_parent = d_shown.rsplit_once('/').map(|x| x.0.to_owned()).unwrap_or_default();
+                // an error naming the source comes from reading/transforming it; an error naming the
+                // destination (or its parent) comes from the final write, i.e. from an item whose
+                // transformation succeeded
+                let t_ok = table.iter().any(|(p, _, r)| *p == s && r.is_ok());
+                let by_source = real_err_paths.iter().any(|p| *p == s_shown) && !t_ok;
+                let by_dest = real_err_paths.iter().any(|p| *p == d_shown || *p == d_parent) && t_ok;
+                if by_source || by_dest {
+                    failing.push(i);
+                } else if real.after.get(&d) != initial.get(&d) {
+                    written.push(i);
+                } else {
+                    rest.push(i);
+                }
+            }
+            let mut p = written;
+            p.extend(failing);
+            p.extend(rest);
+            perm = Some(p);
+        } else if k > 1 {
+            let mut p: Vec<usize> = (0..k).collect();
+            rng.shuffle(&mut p);
+            perm = Some(p);
+        }
+    }
+    let answer = if perm.is_some() { ask_batch_model(model, case, base, "/", &table, perm.as_deref()) } else { first };
+
+    let mut mismatch: Option<String> = None;
+    match (&answer.collect_error, &real.process_error) {
+        (Some(kind), Some(msg)) => {
+            let real_kind = if msg.contains("unable to remove path prefix") { "strip-prefix" } else if msg.contains("unable to extract file name") { "no-file-name" } else { "other" };
+            if kind != real_kind {
+                mismatch = Some(format!("model collect error {} vs real `{}`", kind, msg));
+            }
+        }
+        (Some(kind), None) => mismatch = Some(format!("model predicts collect error {} but process returned Ok", kind)),
+        (None, Some(msg)) => mismatch = Some(format!("process returned Err(`{}`) but the model collects work", msg)),
+        (None, None) => {
+            if real.panicked {
+                mismatch = Some("process panicked".to_owned());
+            } else if answer.tmiss > 0 && region.overlap && listed.contains("C11-F2") {
+                // inside the overlap class an output can become another item's source; `T` was
+                // only measured on the initial contents
+                out.counters.push(("explored_overlap_runs_needing_unmeasured_T".into(), 1));
+            } else if answer.tmiss > 0 {
+                mismatch = Some(format!("the model asked T for {} unmeasured (path, content) pair(s)", answer.tmiss));
+            } else {
+                // full tree comparison
+                for (p, v) in &real.after {
+                    let model_v = answer.store.get(p);
+                    let same = match (model_v, v) {
+                        (Some(Some(Some(mb))), Some(rb)) => mb == rb,
+                        (Some(Some(None)), None) => true,
+                        _ => false,
+                    };
+                    if !same {
+                        mismatch = Some(format!("after the run `{}` is {} in the real tree but {} in the model", p,
+                            if v.is_some() { "a file" } else { "a directory" },
+                            match model_v { None => "unknown (never a candidate)".to_owned(), Some(None) => "absent".to_owned(), Some(Some(None)) => "a directory".to_owned(), Some(Some(Some(_))) => "a file with other content".to_owned() }));
+                        break;
+                    }
+                }
+                if mismatch.is_none() {
+                    for (p, v) in &answer.store {
+                        if v.is_some() && !real.after.contains_key(p) && !(case.fs == false && matches!(v, Some(None))) {
+                            mismatch = Some(format!("the model has `{}` after the run, the real tree does not", p));
+                            break;
+                        }
+                    }
+                }
+                if mismatch.is_none() {
+                    let real_errors = sorted_errors(&real.errors);
+                    if real_errors != answer.errors {
+                        mismatch = Some(format!("error sets differ: real {:?} vs model {:?}", real_errors, answer.errors));
+                    }
+                }
+            }
+        }
+    }
+
+    // ---- oracle
+    let mut broken = oracle(case, &g.faults, &real, &second);
+    broken.extend(oracle_isolation(case, &g.faults, &real));
+    // runs that read other work items' files (bundling / require resolution) in place are outside
+    // the statement's per-file model (DESIGN: "for non-bundling configurations")
+    let reads_others_in_place = config_reads_other_files(case.config) && expectation(case).in_place;
+
+    let class = if region.dot { Some("C11-F1") } else if region.overlap { Some("C11-F2") } else { None };
+    out.hists.push(("shape".into(), format!("{} {}", if case.fs { "fs" } else { "mem" }, g.shape)));
+    out.hists.push(("region".into(), format!("h={} indep={} class={}", region.h, region.indep, class.unwrap_or("-"))));
+    out.hists.push(("faults".into(), format!("{}", real.errors.len().min(6))));
+    out.hists.push(("config".into(), format!("{}{}", case.config, if case.fail_fast { " fail-fast" } else { "" })));
+    out.hists.push(("errors-reported".into(), format!("{}", real.errors.len().min(4))));
+
+    if !broken.is_empty() {
+        let what = broken.iter().map(|(c, w)| format!("[{}] {}", c, w)).collect::<Vec<_>>().join("; ");
+        match class {
+            Some(id) if listed.contains(id) => out.finding_hits.push((id.to_owned(), what)),
+            _ if reads_others_in_place && !region.h => out.counters.push(("explored_in_place_reading_config_oracle_diffs".into(), 1)),
+            _ => out.violations.push(violation("oracle", &broken[0].0, what, case, true)),
+        }
+    }
+    if let Some(what) = mismatch {
+        // a correspondence break: is the property itself broken on this input?
+        let found = !broken.is_empty();
+        if !(found && class.map(|id| listed.contains(id)).unwrap_or(false)) {
+            out.violations.push(violation("correspondence", "batch", format!("{} | model: {}", what, truncate(&answer.raw, 300)), case, false));
+        } else {
+            out.counters.push(("correspondence_diff_inside_known_finding_class".into(), 1));
+        }
+    }
+    if region.indep && !case.fail_fast {
+        out.counters.push(("cases_inside_proved_region".into(), 1));
+    }
+    let nontrivial = real.process_error.is_none() && answer.work.len() >= 2;
+    if nontrivial {
+        out.nontrivial_key = Some(hash_of(case));
+    }
+    out.sample = Some(json!({"shape": g.shape, "fs": case.fs, "input": case.input, "output": case.output, "fail_fast": case.fail_fast,
+        "config": case.config, "files": case.tree.len(), "work": answer.work.len(), "errors": real.errors.len(), "h": region.h, "indep": region.indep}));
+    out
+}
+
+fn truncate(s: &str, n: usize) -> String {
+    if s.len() <= n { s.to_owned() } else { format!("{}…", s.chars().take(n).collect::<String>()) }
+}
+
+// ---------------------------------------------------------------------------------------------
+// child process: determinism across processes (another HashMap RandomState), chdir witnesses
+
+fn child_digests(cases: &[Case]) -> Vec<Value> {
+    cases
+        .iter()
+        .map(|case| {
+            let order: Vec<usize> = (0..case.tree.len()).collect();
+            let r = run_real(case, &order);
+            json!({
+                "digest": format!("{:016x}", snapshot_digest(&r.after, &r.errors)),
+                "process_error": r.process_error,
+                "errors": r.errors,
+                "changed": r.after != initial_snapshot(case),
+                "panicked": r.panicked,
+            })
+        })
+        .collect()
+}
+
+fn run_in_child(cases: &[Case]) -> Option<Vec<Value>> {
+    let exe = std::env::current_exe().ok()?;
+    let n = UNIQUE.fetch_add(1, std::sync::atomic::Ordering::SeqCst);
+    let req = std::env::temp_dir().join(format!("dlv-c11-child-{}-{}.json", std::process::id(), n));
+    let out = std::env::temp_dir().join(format!("dlv-c11-child-{}-{}.out.json", std::process::id(), n));
+    std::fs::write(&req, serde_json::to_string(&json!({"c11_child": true, "cases": cases.iter().map(case_json).collect::<Vec<_>>()})).ok()?).ok()?;
+    let status = std::process::Command::new(exe)
+        .args(["C11", "--replay", req.to_str()?, "--out", out.to_str()?])
+        .status()
+        .ok()?;
+    let text = std::fs::read_to_string(&out).ok();
+    let _ = std::fs::remove_file(&req);
+    let _ = std::fs::remove_file(&out);
+    if !status.success() {
+        return None;
+    }
+    let v: Value = serde_json::from_str(&text?).ok()?;
+    v["samples"].as_array().cloned()
+}
+
+// ---------------------------------------------------------------------------------------------
+// known findings
+
+fn replay_known_findings(report: &mut Report, model: &mut Model) -> BTreeSet<String> {
+    let mut listed = BTreeSet::new();
+    for f in known_findings("C11") {
+        let id = f["id"].as_str().unwrap_or("?").to_owned();
+        listed.insert(id.clone());
+        let case = match case_from_json(&f["witness"]) {
+            Some(c) => c,
+            None => {
+                report.notes.push(format!("known finding {} has no replayable witness", id));
+                continue;
+            }
+        };
+        let still = if case.chdir.is_some() {
+            // needs its own working directory: run in a child process
+            match run_in_child(std::slice::from_ref(&case)) {
+                Some(rs) if rs.len() == 1 => {
+                    let expected = f["expected_wrong"].as_str().unwrap_or("");
+                    let pe = rs[0]["process_error"].as_str().unwrap_or("");
+                    if !pe.is_empty() && expected.contains("unable to remove path prefix") && pe.contains("unable to remove path prefix") {
+                        Some(format!("`{}`", pe))
+                    } else {
+                        None
+                    }
+                }
+                _ => None,
+            }
+        } else {
+            let order: Vec<usize> = (0..case.tree.len()).collect();
+            let mut order2 = order.clone();
+            order2.reverse();
+            let mut found = None;
+            // order-dependent witnesses may need several attempts (HashMap order is random)
+            for _ in 0..40 {
+                let real = run_real(&case, &order);
+                let second = run_real(&case, &order2);
+                let broken = oracle(&case, &BTreeMap::new(), &real, &second);
+                if !broken.is_empty() {
+                    found = Some(broken.iter().map(|(c, _)| c.clone()).collect::<BTreeSet<_>>().into_iter().collect::<Vec<_>>().join(","));
+                    break;
+                }
+            }
+            found
+        };
+        if let Some(what) = still {
+            let region = ask_region(model, &case, "/dlv-c11-root", &case.chdir.as_ref().map(|d| format!("/dlv-c11-root/{}", d)).unwrap_or_else(|| "/".to_owned()));
+            // the model reproduces the defect too (it mirrors the code, bugs included)
+            let cwd = case.chdir.as_ref().map(|d| format!("/dlv-c11-root/{}", d)).unwrap_or_else(|| "/".to_owned());
+            let m = ask_batch_model(model, &case, "/dlv-c11-root", &cwd, &[], None);
+            if case.chdir.is_some() && m.collect_error.as_deref() != Some("strip-prefix") {
+                report.violation(Violation {
+                    kind: "correspondence".into(), check: "known-finding-model".into(),
+                    what: format!("the model does not reproduce {}: {}", id, truncate(&m.raw, 200)), input: case_json(&case), failing_input_found: false });
+            }
+            if region.h {
+                report.violation(Violation {
+                    kind: "finding-changed".into(), check: "known-finding-inside-H".into(),
+                    what: format!("witness of {} lies inside H11", id), input: case_json(&case), failing_input_found: true });
+            }
+            report.known_finding(&id, &format!("{} still reproduces: {} ({})", f["site"].as_str().unwrap_or(""), what, f["expected_wrong"].as_str().unwrap_or("")));
+        }
+    }
+    listed
+}
+
+// ---------------------------------------------------------------------------------------------
+// reserved globals of remove_call_match (remove_assertions)
+
+fn reserved_globals_check(report: &mut Report, model: &mut Model) {
+    // `select` shadowed or not × number of multi-argument asserts: the drained map is visible as
+    // the `local __DARKLUA_REMOVE_CALL_RESERVED_n = select` statement the rule prepends
+    for shadowed in [false, true] {
+        for calls in 0..4usize {
+            for nested in [false, true] {
+                let mut code = String::new();
+                if shadowed {
+                    code.push_str("local select, type, assert_ = 1, 2, 3\n");
+                }
+                for i in 0..calls {
+                    if nested {
+                        code.push_str(&format!("do local v{} = assert(a{}, 'm', select) end\n", i, i));
+                    } else {
+                        code.push_str(&format!("local v{} = assert(a{}, 'm')\n", i, i));
+                    }
+                }
+                code.push_str("return 1\n");
+                let resources = Resources::from_memory();
+                resources.write("m.lua", &code).unwrap();
+                let config: Configuration = json5::from_str("{ generator: 'dense', rules: ['remove_assertions'] }").unwrap();
+                let mut outputs = BTreeSet::new();
+                for _ in 0..3 {
+                    let (pe, errs, panicked) = run_process(&resources, Options::new("m.lua").with_output("o.lua").with_configuration(config.clone_via_json()));
+                    if pe.is_some() || !errs.is_empty() || panicked {
+                        report.violation(Violation { kind: "correspondence".into(), check: "reserved-run".into(), what: format!("remove_assertions failed: {:?} {:?}", pe, errs), input: json!({"code": code}), failing_input_found: false });
+                    }
+                    outputs.insert(resources.get("o.lua").unwrap_or_default());
+                }
+                let output = outputs.iter().next().cloned().unwrap_or_default();
+                let real_entries = output.matches("__DARKLUA_REMOVE_CALL_RESERVED_").map(|_| ()).count();
+                let declared: BTreeSet<&str> = output.split(|c: char| !(c.is_alphanumeric() || c == '_')).filter(|w| w.starts_with("__DARKLUA_REMOVE_CALL_RESERVED_")).collect();
+                let bits: String = (0..calls).map(|_| if shadowed { '1' } else { '0' }).collect();
+                let answer = model.ask(&format!("c11.reserved assert {}", bits));
+                let model_entries = answer.matches("(x").count();
+                report.case(Some(("reserved", shadowed, calls, nested)));
+                report.hist("reserved-entries", &format!("{}", declared.len()));
+                if outputs.len() != 1 {
+                    report.violation(Violation { kind: "oracle".into(), check: "reserved-deterministic".into(), what: "remove_assertions output differs between runs".into(), input: json!({"code": code}), failing_input_found: true });
+                }
+                if declared.len() > 1 {
+                    report.violation(Violation { kind: "oracle".into(), check: "reserved-le-one".into(), what: format!("{} reserved globals declared: order of HashMap::drain reaches the output", declared.len()), input: json!({"code": code}), failing_input_found: true });
+                }
+                if declared.len() != model_entries || (real_entries == 0) != (model_entries == 0) {
+                    report.violation(Violation { kind: "correspondence".into(), check: "reserved".into(), what: format!("model drains {} entries, the generated code declares {}: {}", model_entries, declared.len(), output), input: json!({"code": code}), failing_input_found: false });
+                }
+            }
+        }
+    }
+    report.exhaustive.insert("reserved globals: select shadowed × 0..3 matching calls × nesting".into(), true);
+}
+
+trait CloneViaJson {
+    fn clone_via_json(&self) -> Configuration;
+}
+impl CloneViaJson for Configuration {
+    fn clone_via_json(&self) -> Configuration {
+        let text = serde_json::to_string(self).expect("configuration serialises");
+        json5::from_str(&text).expect("configuration round-trips")
+    }
+}
+
+// ---------------------------------------------------------------------------------------------
+// path primitives: model vs std (the trusted part of the model is checked too)
+
+fn path_primitives_check(report: &mut Report, model: &mut Model, rng: &mut Rng) {
+    let pieces = ["a", "b.lua", ".", "..", "", "c d", ".x", "x.", "e.luau", "\u{e9}"];
+    let mut lines = Vec::new();
+    let mut inputs = Vec::new();
+    for _ in 0..400 {
+        let n = 1 + rng.below(5);
+        let mut s = String::new();
+        if rng.chance(1, 4) {
+            s.push('/');
+        }
+        for i in 0..n {
+            if i > 0 {
+                s.push('/');
+            }
+            s.push_str(*rng.pick(&pieces[..]));
+        }
+        lines.push(format!("c11.ext {}", path_hex(&s)));
+        inputs.push(s);
+    }
+    let answers = model.ask_batch(&lines);
+    for (s, a) in inputs.iter().zip(answers) {
+        let real = Path::new(s).extension().map(|e| e.to_string_lossy().into_owned());
+        let model_ext = a.strip_prefix("some ").and_then(unhex_str);
+        report.case(None::<u64>);
+        if real != model_ext {
+            report.violation(Violation { kind: "correspondence".into(), check: "extension".into(), what: format!("Path::extension({:?}) = {:?}, model {:?}", s, real, a), input: json!({"path": s}), failing_input_found: false });
+        }
+    }
+}
+
+// ---------------------------------------------------------------------------------------------
+
+pub fn run(report: &mut Report, replay: Option<&str>) {
+    // ---- child mode / replay
+    if let Some(path) = replay {
+        let text = std::fs::read_to_string(path).unwrap_or_default();
+        let v: Value = serde_json::from_str(&text).unwrap_or(Value::Null);
+        if v["c11_child"] == true {
+            let cases: Vec<Case> = v["cases"].as_array().map(|a| a.iter().filter_map(case_from_json).collect()).unwrap_or_default();
+            report.max_samples = usize::MAX;
+            for d in child_digests(&cases) {
+                report.sample(d);
+            }
+            return;
+        }
+        if let Some(case) = case_from_json(&v["input"]).or_else(|| case_from_json(&v)) {
+            let mut model = Model::spawn();
+            let listed: BTreeSet<String> = known_findings("C11").iter().filter_map(|f| f["id"].as_str().map(str::to_owned)).collect();
+            let g = Generated { case, faults: BTreeMap::new(), blocked: BTreeSet::new(), shape: "replay".into() };
+            let mut rng = Rng::new(report.seed);
+            let o = run_case(&mut model, &g, &mut rng, &listed);
+            for v in o.violations {
+                report.violation(v);
+            }
+            report.case(o.nontrivial_key);
+            return;
+        }
+        report.notes.push("replay file not understood".into());
+        return;
+    }
+
+    report.rule = "random directory trees (nesting, non-Lua files, names with spaces/dots/unicode, a directory named x.lua) × input as file/dir/./dir/dir/ /dir/sub/.. /missing × output absent/new/existing dir/existing file/with extension/same as input/blocked destinations (+ the finding classes: output inside input, input inside output, input `.`) × fault subsets (syntax, invalid UTF-8, missing require under convert_require/bundle, directory or file in the way) × fail-fast × 4 configurations, on memory resources and on a real temporary directory; non-trivial = process succeeded as a whole and the work list has ≥ 2 items".to_owned();
+
+    let mut model = Model::spawn();
+    let listed = replay_known_findings(report, &mut model);
+    reserved_globals_check(report, &mut model);
+    let mut rng = Rng::new(hash_of(&("C11", report.seed)));
+    path_primitives_check(report, &mut model, &mut rng);
+    drop(model);
+
+    // ---- corpus: finding witnesses and fixed layouts, replayed first
+    {
+        let dir = concat!(env!("CARGO_MANIFEST_DIR"), "/../corpus/C11");
+        let mut files: Vec<_> = std::fs::read_dir(dir).map(|d| d.flatten().map(|e| e.path()).collect()).unwrap_or_default();
+        files.sort();
+        let mut model = Model::spawn();
+        for f in files {
+            let v: Value = serde_json::from_str(&std::fs::read_to_string(&f).unwrap_or_default()).unwrap_or(Value::Null);
+            if let Some(case) = case_from_json(&v) {
+                let g = Generated { case, faults: BTreeMap::new(), blocked: BTreeSet::new(), shape: "corpus".into() };
+                let o = run_case(&mut model, &g, &mut rng, &listed);
+                report.case(o.nontrivial_key);
+                report.count("corpus_cases", 1);
+                for v in o.violations {
+                    report.violation(v);
+                }
+            }
+        }
+    }
+    let thorough = report.is_thorough();
+    let threads = 12usize;
+    let (mem_cases, fs_cases) = if thorough { (48_000usize, 12_000usize) } else { (12_000usize, 3_600usize) };
+    let mut handles = Vec::new();
+    for t in 0..threads {
+        let mut trng = Rng(rng.next_u64());
+        let listed = listed.clone();
+        let (m, f) = (mem_cases / threads, fs_cases / threads);
+        handles.push(std::thread::spawn(move || {
+            let mut model = Model::spawn();
+            let mut outcomes = Vec::new();
+            let mut cross = Vec::new();
+            for i in 0..(m + f) {
+                let fs = i >= m;
+                let allow_classes = trng.chance(1, 5);
+                let g = generate(&mut trng, fs, allow_classes);
+                let o = run_case(&mut model, &g, &mut trng, &listed);
+                if i % 9 == t % 9 && !g.case.fail_fast {
+                    cross.push(g.case.clone());
+                }
+                outcomes.push(o);
+            }
+            (outcomes, cross)
+        }));
+    }
+    let mut cross_cases = Vec::new();
+    for h in handles {
+        let (outcomes, cross) = h.join().expect("worker thread panicked");
+        cross_cases.extend(cross);
+        for o in outcomes {
+            report.case(o.nontrivial_key);
+            for (n, b) in o.hists {
+                report.hist(&n, &b);
+            }
+            for (n, c) in o.counters {
+                report.count(&n, c);
+            }
+            for (id, what) in o.finding_hits {
+                report.count(&format!("oracle_failures_attributed_to_{}", id), 1);
+                if report.counters.get(&format!("oracle_failures_attributed_to_{}", id)) == Some(&1) {
+                    report.notes.push(format!("first generated case attributed to {}: {}", id, truncate(&what, 240)));
+                }
+            }
+            if let Some(s) = o.sample {
+                report.sample(s);
+            }
+            for v in o.violations {
+                report.violation(v);
+            }
+        }
+    }
+
+    // ---- two processes: another RandomState for every HashMap
+    let mut model = Model::spawn();
+    let mine = child_digests(&cross_cases);
+    match run_in_child(&cross_cases) {
+        Some(theirs) if theirs.len() == mine.len() => {
+            for ((case, a), b) in cross_cases.iter().zip(&mine).zip(&theirs) {
+                report.count("cross_process_cases", 1);
+                if a["digest"] != b["digest"] {
+                    let region = ask_region(&mut model, case, "/dlv-c11-root", "/");
+                    let class = if region.dot { "C11-F1" } else if region.overlap { "C11-F2" } else { "-" };
+                    let in_place_reader = config_reads_other_files(case.config) && expectation(case).in_place;
+                    if listed.contains(class) {
+                        report.count(&format!("cross_process_differences_attributed_to_{}", class), 1);
+                    } else if in_place_reader && !region.h {
+                        report.count("explored_in_place_reading_config_oracle_diffs", 1);
+                    } else {
+                        report.violation(violation("oracle", "cross-process", format!("two processes give different trees/errors: {} vs {}", a, b), case, true));
+                    }
+                }
+            }
+        }
+        _ => report.notes.push("the child process run failed; cross-process determinism not checked".into()),
+    }
+    report.notes.push("real-file-system-only behaviour (permissions: the harness runs as root so read-only files are writable; symlinks; non-UTF-8 file names) is explored only, not modelled".into());
 }
